@@ -255,6 +255,40 @@ def is_legal_checked(ix, b, sym, db, dv):
     return False
 
 
+def rule_time_budget(ctx):
+    """The per-move clock budget is derived from the side to move's own clock and increment."""
+    ix = ctx.ix
+    b = ctx.body(C.SEARCH)
+    sym = ctx.sym(b)
+    rows = {}
+    for bi, t in b.calls():
+        if not callee_is(t, "*::into"):
+            continue
+        e = sym.operand(t["args"][0])
+        flds = sorted({x[-1] for x in walk(e) if isinstance(x, tuple) and x[0] == "field" and len(x) >= 3 and x[-2] == "limits"})
+        if not flds:
+            continue
+        cons = C.constraints_for(ix, b, sym, bi)
+        col = [next(iter(c[1])) for c in cons if len(c[1]) == 1 and next(iter(c[1])) in ("White", "Black") and "current_turn" in c[0]]
+        divs = sorted(x[3][1] for x in walk(e) if isinstance(x, tuple) and x[0] == "bin" and x[1] == "Div" and x[3][0] == "const")
+        shape_ok = e[0] == "bin" and e[1].startswith("Add") and all(isinstance(y, tuple) and y[0] == "bin" and y[1] == "Div" for y in (e[2], e[3])) and all(d >= 1 for d in divs)
+        rows[col[-1] if col else None] = (flds, shape_ok)
+    want = {"White": ["white_increment", "white_time"], "Black": ["black_increment", "black_time"]}
+    for c in ("White", "Black"):
+        got = rows.get(c)
+        ctx.check(got is not None and got[0] == want[c] and got[1], "search:time-budget:%s" % c, "%s to move: budget = %s / k1 + %s / k2 (own clock and increment, each divided by a constant >= 1)" % (c, want[c][1], want[c][0]), b.where(0),
+                  bad_what="with %s to move the clock budget is computed from %s: the engine must budget from the mover's own clock and increment, or it overruns the time the limits allow" % (c, got))
+    # and it is stored where limits_exceeded reads it
+    asg = [bi for bi, i, s in b.stmts() if fields_of(s["lhs"])[-2:] == ("limits", "time_management_timer")]
+    its = [bi for bi, t in b.calls() if C.ITER_DEEP in ix.call_targets(t)]
+    ctx.check(len(asg) == 1 and its and b.dominates(asg[0], its[0]), "search:time-budget:set-before-search", "limits.time_management_timer is set once, before iter_deep", b.where(asg[0] if asg else 0),
+              bad_what="the time-management budget is not assigned (once) before the search starts")
+    le = ctx.body(C.LIMITS_EXCEEDED)
+    lsym = ctx.sym(le)
+    reads = any(isinstance(x, tuple) and x[0] == "field" and x[-1] == "time_management_timer" for bi, i, s in le.stmts() for x in walk(lsym.rvalue(s["rv"])))
+    ctx.check(reads, "limits_exceeded:reads-time-budget", "limits_exceeded compares the elapsed time with limits.time_management_timer", le.where(0), bad_what="limits_exceeded never reads the time-management budget")
+
+
 def rule_poll(ctx):
     c10.rule_poll(ctx)
 
@@ -263,7 +297,7 @@ def rule_depth_units(ctx):
     c14.rule_depth_units(ctx)
 
 
-RULES = [("one-site", rule_one_site), ("spine-panics", rule_spine_panics), ("poll", rule_poll), ("nonblocking", rule_nonblocking),
+RULES = [("one-site", rule_one_site), ("spine-panics", rule_spine_panics), ("poll", rule_poll), ("time-budget", rule_time_budget), ("nonblocking", rule_nonblocking),
          ("depth-units", rule_depth_units), ("legal-src", rule_legal_src)]
 
 
